@@ -87,6 +87,9 @@ def run_c02(out, tier, seed, replay):
                                         prog=[p for p in sel if p["name"] == rec["case"]["prog"]][0])}
     log(f"[par] C02: {len(sel)} programs, {len(cases)} cases")
     sem.finish_cases(out, pid, sel, cases, meta, mods, bindir, work)
+    if not replay:
+        import stress
+        stress.run_stress(out, pid, tier, seed, progs_all, mods, bindir, work)
     out.extra["pools"] = POOLS
     out.extra["perturbation_seeds_per_case"] = nseeds
     out.rule = ("model: every interleaving of the ParHead protocol within the stated constants (exhaustive). implementation: every "
